@@ -41,9 +41,9 @@ int vh_conv(void)
 	    else ((fn1_t)table[k].fn)(in, out, z0);
 	    break;
 	case 2:
-	    if (alias)
-		return -1;
-	    ((fn2_t)table[k].fn)(in, zi, z0);
+	    /* alias: the output vector overlaid on the input matrix, as vnadata_convert does in place */
+	    if (alias) { ((fn2_t)table[k].fn)(in, &in[0][0], z0); zi[0] = in[0][0]; zi[1] = in[0][1]; }
+	    else ((fn2_t)table[k].fn)(in, zi, z0);
 	    vh_out("ok");
 	    vh_out_complex(zi[0]);
 	    vh_out_complex(zi[1]);
